@@ -80,7 +80,7 @@ def register(reg):
                           'self.decoded_descriptors_all_subsets is old(self.decoded_descriptors_all_subsets)',
                           'self.decoded_values_all_subsets is old(self.decoded_values_all_subsets)',
                           'self.bitmap_links_all_subsets is old(self.bitmap_links_all_subsets)',
-                          'self.is_compressed == old(self.is_compressed)', 'self.n_subsets == old(self.n_subsets)'],
+                          'self.is_compressed == old(self.is_compressed)', 'self.n_subsets == old(self.n_subsets)', 'same_ghosts(self)'],
                  serves=['C06'], note='each subset is a fresh application of the template (D-6)'))
 
     DALL, VALL, LALL = 'self.decoded_descriptors_all_subsets', 'self.decoded_values_all_subsets', 'self.bitmap_links_all_subsets'
